@@ -370,10 +370,10 @@ def r4_transforms(ck, cx, builds):
 
 def run(ck, tier):
     cx = Ctx()
-    builds = r1_build(ck, cx)
-    r2_agreement(ck, cx, builds)
-    r3_rtu_sizes(ck, cx)
-    r4_transforms(ck, cx, builds)
+    builds = ck.guard(r1_build, ck, cx) or {}
+    ck.guard(r2_agreement, ck, cx, builds)
+    ck.guard(r3_rtu_sizes, ck, cx)
+    ck.guard(r4_transforms, ck, cx, builds)
     ck.rule('R5', 'checksum comparison shape and CRC constants (shared with C07 R3)')
     sub = type(ck)(ck.pid, ck.tier)
     r3_shape(sub, cx)
